@@ -193,10 +193,10 @@ func c02(r *ev.Run, replay string) {
 			c02Pool(r, ro, dedup(wpool))
 			r.Count("witness_strings", int64(len(wpool)))
 		}
-		// The regular pools and one more (four at the thorough tier) built from
+		// The regular pools and four more (a third as many at the thorough tier) built from
 		// integer-edge families: strings that differ in one component only,
 		// running over 0, 1 and numbers around 2^31, 2^32, 2^63 and 2^64.
-		for sh := 0; sh < shards+max(1, shards/4); sh++ {
+		for sh := 0; sh < shards+max(4, shards/3); sh++ {
 			wg.Add(1)
 			sem <- struct{}{}
 			go func(ro refOrder, sh int) {
